@@ -234,13 +234,18 @@ def resumed_scenario(ck, tag):
     ck.count('resumed:first session %s' % first['status'])
     plans = [('batch', []), ('round-robin', [])] + [('random', [rng.randrange(64) for _ in range(80)]) for _ in range(3)]
     ref = None
+    data_file = os.path.join(wd0, 't.data')
+    saved = open(data_file, 'rb').read() if os.path.exists(data_file) else None
     for sched, choices in plans:
-        wd = c04._mkwd(ck) + '-copy'
-        shutil.copytree(wd0, wd)
-        # the copied configuration names the data file of wd0 by its absolute path: rewrite it
-        conf = os.path.join(wd, 'test.conf')
-        text = open(conf).read().replace(os.path.abspath(wd0), os.path.abspath(wd))
-        open(conf, 'w').write(text)
+        # the same directory (the run identity contains absolute paths): the data file is put back to what the
+        # interrupted session left
+        wd = wd0
+        if saved is None:
+            if os.path.exists(data_file):
+                os.unlink(data_file)
+        else:
+            with open(data_file, 'wb') as f:
+                f.write(saved)
         sess = {'sched': sched, 'choices': choices, 'scripts': scripts, 'cpu': 1, 'builds': {}, 'needs_build': True}
         inp = {'kind': 'resumed', 'scn': scn, 'scripts': scripts, 'stop_at': stop_at, 'sched': sched, 'choices': choices,
                'recorded_before': sorted(set((r[0], r[1]) for r in before))}
